@@ -375,11 +375,15 @@ def translate(seq, *, complete=False, check_start=None, check_stop=False,
     check_start_warn = warn
     final_stop = final_stop if final_stop is not None else complete
     codon = ''
-    for i, nt in enumerate(str(seq).replace('U', 'T')):
+    seqstr = str(seq).replace('U', 'T')
+    # number of residues (not gaps) following the current position
+    nres = len(seqstr) - (seqstr.count(gap) if gap else 0)
+    for i, nt in enumerate(seqstr):
         if nt == gap:
             ngap += 1
         else:
             codon = codon + nt
+            nres -= 1
         if gap and gap_after is not None and ngap == gap_after:
             aas.append(gap)
             ngap -= 3
@@ -407,13 +411,13 @@ def translate(seq, *, complete=False, check_start=None, check_stop=False,
                 if warn:
                     warnings.warn(f'Codon {codon} might be a stop codon.')
             if codon in gc.stops:
-                if (check_stop or warn) and i < len(seq) - 3:
+                if (check_stop or warn) and nres >= 3:
                     msg = 'First stop codon is not at the end of the sequence.'
                     if check_stop:
                         raise ValueError(msg)
                     else:
                         warnings.warn(msg)
-                if i >= len(seq) - 3 or not complete:
+                if nres < 3 or not complete:
                     if final_stop:
                         aas.append(aa)
                     break
